@@ -9,3 +9,98 @@ def proc_fn(x, fails=(), delays_ms=(0,)):
     if x in fails:
         raise ValueError('proc_fn', x)
     return ('r', x)
+
+
+# ---------------------------------------------------------------- C17 real cases
+
+
+def _iq_supplier(q, r, k, count):
+    for j in range(count):
+        q.put((r, k, j))
+    q.put_end()
+    return True
+
+
+def _iq_consumer(q):
+    return [x for x in q]
+
+
+def iq_real_case(spec):
+    """returns {'error': (clause, detail)} or {}"""
+    import queue
+    import threading
+    from collections import Counter
+
+    import mpservice.multiprocessing as mmp
+    from mpservice.queue import IterableQueue, StopRequested
+
+    m, n, count, rounds = spec['m'], spec['n'], spec['count'], spec['rounds']
+    if spec['mode'] == 'threads_stop':
+        ev = threading.Event()
+        q = IterableQueue(queue.Queue(maxsize=3), num_suppliers=m, to_stop=ev)
+        for r in range(rounds):
+            got = [[] for _ in range(n)]
+            errs = []
+
+            def con(k):
+                try:
+                    for x in q:
+                        got[k].append(x)
+                except BaseException as e:
+                    errs.append(repr(e))
+
+            ths = [threading.Thread(target=_iq_supplier, args=(q, r, k, count)) for k in range(m)] + [threading.Thread(target=con, args=(k,)) for k in range(n)]
+            for t in ths:
+                t.start()
+            for t in ths:
+                t.join()
+            if errs:
+                return {'error': ('party_raised', str(errs))}
+            want = Counter((r, k, j) for k in range(m) for j in range(count))
+            have = Counter(x for c in got for x in c)
+            if want != have:
+                return {'error': ('multiset', f'round {r}: missing {list((want - have).elements())[:5]} extra {list((have - want).elements())[:5]}')}
+            if r + 1 < rounds:
+                q.renew()
+        # stop rule: a consumer blocked on the exhausted-but-renewed queue must be released by the stop event
+        q.renew()
+        res = {}
+
+        def blocked():
+            t0 = time.monotonic()
+            try:
+                next(q)
+                res['r'] = 'value'
+            except StopRequested:
+                res['r'] = 'StopRequested'
+            except BaseException as e:
+                res['r'] = repr(e)
+            res['dt'] = time.monotonic() - t0
+
+        t = threading.Thread(target=blocked)
+        t.start()
+        time.sleep(0.3)
+        ev.set()
+        t.join(10)
+        if t.is_alive() or res.get('r') != 'StopRequested':
+            return {'error': ('stop_ignored', f'blocked consumer after stop request: {res}')}
+        if res['dt'] > 0.3 + 1.0 * 5:
+            return {'error': ('stop_late', f'released after {res["dt"]:.2f}s')}
+        return {}
+    # processes
+    q = IterableQueue(mmp.Queue(maxsize=5), num_suppliers=m)
+    for r in range(rounds):
+        sups = [mmp.Process(target=_iq_supplier, args=(q, r, k, count)) for k in range(m)]
+        cons = [mmp.Process(target=_iq_consumer, args=(q,)) for _ in range(n)]
+        for p in sups + cons:
+            p.start()
+        for p in sups:
+            p.join()
+        got = [p.result() for p in cons]
+        want = Counter((r, k, j) for k in range(m) for j in range(count))
+        have = Counter(tuple(x) for c in got for x in c)
+        if want != have:
+            return {'error': ('multiset', f'round {r}: missing {list((want - have).elements())[:5]} extra {list((have - want).elements())[:5]}')}
+        if r + 1 < rounds:
+            q.renew()
+    return {}
